@@ -50,7 +50,13 @@ def do_call(it, e, fr):
         args = [it.eval(a, fr) for a in e.args]
         kwargs = {k.arg: it.eval(k.value, fr) for k in e.keywords}
         return apply_callee_spec(it, spec, dotted, args, kwargs, fr, e)
-    f = it.eval(e.func, fr)
+    opaque = fr.contract is not None and getattr(fr.contract, 'opaque_calls', False) and not ctx.spec_mode
+    try:
+        f = it.eval(e.func, fr)
+    except Unsupported:
+        if not opaque:
+            raise
+        f = None
     args = []
     for a in e.args:
         if isinstance(a, ast.Starred):
@@ -62,7 +68,28 @@ def do_call(it, e, fr):
         if k.arg is None:
             raise Unsupported('**kwargs call')
         kwargs[k.arg] = it.eval(k.value, fr)
-    return call_value(it, f, args, kwargs, fr, e, dotted)
+    if not opaque:
+        return call_value(it, f, args, kwargs, fr, e, dotted)
+    # sweep mode: a callee without a contract returns an unconstrained value and is ASSUMED to raise nothing outside
+    # the caller's allowed set (recorded per function as an unchecked assumption; the arguments were still evaluated,
+    # so every slice / index / unpack in them carries its own obligation)
+    if f is None:
+        return opaque_result(it, dotted, fr)
+    try:
+        return call_value(it, f, args, kwargs, fr, e, dotted)
+    except Unsupported as ex_:
+        if not str(ex_).startswith('no contract for'):
+            raise
+        return opaque_result(it, dotted, fr)
+
+
+def opaque_result(it, dotted, fr):
+    it.ctx.assumed_calls = getattr(it.ctx, 'assumed_calls', set())
+    it.ctx.assumed_calls.add(dotted)
+    rec = getattr(it, 'assumed_calls', None)
+    if rec is not None:
+        rec.add(dotted)
+    return VObj(None, {'opaque!': True, 'bool!': it.ctx.fresh(f'truth({dotted})', z3.BoolSort())}, f'opaque:{dotted}')
 
 
 def call_value(it, f, args, kwargs, fr, node, dotted):
